@@ -5,7 +5,11 @@ from vmc.gen import scenes
 from vmc.props import common
 
 DIMS = scenes.DIMS
-K = {"quick": 2, "thorough": 3}
+K = {"quick": 2, "thorough": 2}
+# thorough: every state with <= 2 deviations over all dimensions, plus every state with 3 deviations over the dimensions that
+# meet in the code under test (the full level-3 lattice, ~350 000 states, is available with `--only 3` and was run once: DESIGN 10)
+CORE3 = ("user", "tol", "fmt", "outline", "stack", "place", "donor_paint", "copy_paint", "twin", "shared_grad", "grad_twice", "vb_b", "grp",
+         "nglyphs", "where", "vb_aspect", "width", "lin_vec", "rad_geom", "pretty")
 
 
 def execute(dev):
@@ -36,7 +40,9 @@ def run(report, tier, only=None):
 
     selftest.run(report)
     k = int(only) if only and only.isdigit() else K[tier]
-    devs, results = lattice.explore(report, DIMS, k, execute, relevant=scenes.relevant, timeout=300)
+    deep = 3 if tier == "thorough" and not (only and only.isdigit()) else None
+    devs, results = lattice.explore(report, DIMS, k, execute, relevant=scenes.relevant, timeout=300, deep_dims=CORE3, deep_k=deep)
+    report.extra["deep_sublattice"] = {"dims": [d for d in DIMS if d in CORE3], "bound": deep} if deep else None
     probes = {"valid": 0, "skipped": 0, "bad": 0, "inconclusive_layers": 0}
     for r in results:
         for v in r:
@@ -44,13 +50,14 @@ def run(report, tier, only=None):
                 probes[kk] += n
     report.extra["probes"] = probes
     report.extra["deviation_bound"] = k
+    deep_note = " (plus every assignment with 3 non-default dimensions among the %d core dimensions listed in the evidence)" % len([d for d in DIMS if d in CORE3]) if deep else ""
     report.rule = (
-        "E1: every assignment with <= %d non-default dimensions of the %d-dimension scene/config lattice "
+        "E1: every assignment with <= %d non-default dimensions{DEEP} of the %d-dimension scene/config lattice "
         "(vmc/gen/scenes.py) is compiled with write_font._generate_color_font, saved, reloaded; the glyph "
         "O-SHAPE reaches is evaluated with the COLRv1 point semantics and compared with the scene-model "
         "picture on a 24x24 lattice plus 7x7 witnesses per source layer; distinct = paint-format set of "
         "the emitted graph / error class" % (k, len(DIMS))
-    )
+    ).replace("{DEEP}", deep_note)
     report.assumptions += [
         "fontTools decompiles COLR/CPAL/glyf/CFF correctly; skia-pathops Path.contains is correct",
         "continuous domains (coordinates, matrices, colours) are covered at the alphabet points only",
